@@ -8,6 +8,9 @@ every run and emitted as lean/DuneVerif/Gen/C14.lean:
   layout_stride.hh mapping::size(extents,strides)   rank-0 value, empty value, initial value, loop bounds, step
   mdspan.hh        mdspan::size()                   loop bounds, product step
   mdarray.hh       mdarray::size()                  loop bounds, product step
+  mdarray.hh       mdarray(const mdspan&[, const Alloc&])   the number of elements the container is created with
+                   (member initialiser of container_: which of `mapping_type(other.mapping()).required_span_size()`,
+                   `other.mapping().required_span_size()`, `other.size()` it is) and that mapping_ adopts other.mapping()
 
 Every function must have the shape   `T acc = INIT; for (V = LO; V </<= HI; ++V) { [const T j = E;] acc OP= E; } return acc;`
 (braces optional, any variable names, any whitespace/comments).  The pieces are alpha-renamed (loop variable `r`,
@@ -332,6 +335,108 @@ def tr_size(src, name, doc):
     return parts, consts, "\n".join(txt)
 
 
+# ------------------------------------------------------------------------------------------------
+# mdarray(const mdspan& other [, const Alloc& a]): the member initialisers
+# ------------------------------------------------------------------------------------------------
+
+def balanced(s, i):
+    """s[i] is an opening bracket: index behind its partner"""
+    pairs = {"(": ")", "{": "}"}
+    close = pairs[s[i]]
+    depth, j = 0, i
+    while j < len(s):
+        if s[j] in "({":
+            depth += 1
+        elif s[j] in ")}":
+            depth -= 1
+            if depth == 0:
+                if s[j] != close:
+                    raise TranslateError("mismatched brackets")
+                return j + 1
+        j += 1
+    raise TranslateError("unbalanced brackets")
+
+
+def member_inits(src, start):
+    """`: a_(x) , b_{y} {`  ->  ([(name, args)], index of the body's opening brace)"""
+    i = start
+    res = []
+    while True:
+        m = re.compile(r"\s*(\w+)\s*(?=[({])").match(src, i)
+        if not m:
+            raise TranslateError("member initialiser expected")
+        j = balanced(src, m.end())
+        res.append((m.group(1), re.sub(r"\s+", "", src[m.end() + 1:j - 1])))
+        m2 = re.compile(r"\s*,").match(src, j)
+        if m2:
+            i = m2.end()
+            continue
+        m3 = re.compile(r"\s*\{").match(src, j)
+        if not m3:
+            raise TranslateError("constructor body expected")
+        return res, m3.end() - 1
+
+
+def unwrap(e):
+    """strip redundant parentheses and size casts"""
+    while True:
+        m = re.fullmatch(r"(?:static_cast<(?:std::)?size_t>|(?:std::)?size_t|size_type|static_cast<size_type>)\((.*)\)", e)
+        if m and balanced(e, e.index("(")) == len(e):
+            e = m.group(1)
+            continue
+        if e.startswith("(") and balanced(e, 0) == len(e):
+            e = e[1:-1]
+            continue
+        return e
+
+
+def classify_count(e, other):
+    e = unwrap(e)
+    o = re.escape(other)
+    if re.fullmatch(r"(?:mapping_type|typename\w+::mapping_type)[({]%s\.mapping\(\)[)}]\.required_span_size\(\)" % o, e):
+        return "span"
+    if re.fullmatch(r"%s\.mapping\(\)\.required_span_size\(\)" % o, e):
+        return "ospan"
+    if re.fullmatch(r"%s\.size\(\)" % o, e):
+        return "size"
+    raise TranslateError("element count %r of the container is not one of the known forms" % e)
+
+
+def tr_from_mdspan(src, name, doc):
+    head = re.compile(r"constexpr\s+mdarray\s*\(\s*const\s+mdspan\s*<[^>]*>\s*&\s*(\w+)\s*(?:,\s*const\s+\w+\s*&\s*(\w+)\s*)?\)\s*(?:noexcept)?\s*:")
+    found = {}
+    for m in head.finditer(src):
+        other, alloc = m.group(1), m.group(2)
+        inits, b = member_inits(src, m.end())
+        d = dict(inits)
+        if [n for n, _ in inits] != ["container_", "mapping_"]:
+            raise TranslateError("%s: member initialisers %s" % (doc, [n for n, _ in inits]))
+        if d["mapping_"] != other + ".mapping()":
+            raise TranslateError("%s: mapping_ is initialised with %r" % (doc, d["mapping_"]))
+        body = re.sub(r"\s+", "", src[b:balanced(src, b)])
+        if body != "{init_from_mdspan(%s);}" % other:
+            raise TranslateError("%s: constructor body %r" % (doc, body[:80]))
+        c = d["container_"]
+        if alloc is None:
+            mm = re.fullmatch(r"construct_container<\w+>\((.*)\)", c)
+            if not mm:
+                raise TranslateError("%s: container_ is initialised with %r" % (doc, c))
+            found["plain"] = classify_count(mm.group(1), other)
+        else:
+            if not c.endswith("," + alloc):
+                raise TranslateError("%s: container_ is initialised with %r" % (doc, c))
+            found["alloc"] = classify_count(c[:-len(alloc) - 1], other)
+    if sorted(found) != ["alloc", "plain"]:
+        raise TranslateError("%s: expected the constructor with and without allocator, found %s" % (doc, sorted(found)))
+    txt = ["/-- %s: the number of elements `container_` is created with, as a function of" % doc,
+           "    `span = mapping_type(other.mapping()).required_span_size()`, `ospan = other.mapping().required_span_size()`,",
+           "    `size = other.size()`; `mapping_(other.mapping())`, body `init_from_mdspan(other)` -/",
+           "def %s_csize (span ospan size : Nat) : Nat := %s" % (name, found["plain"]),
+           "/-- the same for `mdarray(const mdspan& other, const Alloc& a)` -/",
+           "def %s_alloc_csize (span ospan size : Nat) : Nat := %s" % (name, found["alloc"])]
+    return found, {}, "\n".join(txt)
+
+
 FUNCS = [
     ("left", "dune/common/std/layout_left.hh", tr_offset, "layout_left::mapping::operator()(Indices...)"),
     ("left_stride", "dune/common/std/layout_left.hh", tr_stride, "layout_left::mapping::stride(i)"),
@@ -341,6 +446,7 @@ FUNCS = [
     ("stride_size", "dune/common/std/layout_stride.hh", tr_size, "layout_stride::mapping::size(extents,strides)"),
     ("mdspan_size", "dune/common/std/mdspan.hh", tr_mdsize, "mdspan::size()"),
     ("mdarray_size", "dune/common/std/mdarray.hh", tr_mdsize, "mdarray::size()"),
+    ("mdarray_from_mdspan", "dune/common/std/mdarray.hh", tr_from_mdspan, "mdarray(const mdspan& other[, const Alloc& a])"),
 ]
 
 # The reference: the functions as they read when the theorems were written.
@@ -426,6 +532,20 @@ REFERENCE = {
   }""",
 }
 
+REFERENCE["mdarray_from_mdspan"] = """
+  constexpr mdarray (const mdspan<OtherElementType,OtherExtents,OtherLayoutPolicy,Accessor>& other)
+    : container_(construct_container<container_type>(mapping_type(other.mapping()).required_span_size()))
+    , mapping_(other.mapping())
+  {
+    init_from_mdspan(other);
+  }
+  constexpr mdarray (const mdspan<V,E,L,A>& other, const Alloc& a)
+    : container_(mapping_type(other.mapping()).required_span_size(), a)
+    , mapping_(other.mapping())
+  {
+    init_from_mdspan(other);
+  }"""
+
 GEN = "DuneVerif/Gen/C14.lean"
 HEADER = ("-- GENERATED by tools/translators/tr_c14.py from dune/common/std/{layout_left,layout_right,layout_stride,extents,mdspan,mdarray}.hh"
           " -- do not edit\n")
@@ -438,6 +558,8 @@ def same_function(name, new, ref, samples=3000):
     pr, cr, _ = ref
     if cn != cr:
         return False
+    if name == "mdarray_from_mdspan":  # data, not a loop: equal iff the same classification
+        return pn == pr
     rng = random.Random(14)
     for _ in range(samples):
         rank = rng.randint(1, 5)
